@@ -222,7 +222,9 @@ func genS4(thorough bool, emit func(tcase)) {
 	// handlers that only READ values of the shared scope while building their own: keyword objects and arrays expanded
 	// into calls and literals, an iterator literal instantiated, a function called by both
 	readers := []string{"zz_c20_render(**zz_c20_defaults, **{debug: true})", "zz_c20_render(**zz_c20_defaults, **{trace: true})", "[*zz_c20_list, 4].len + {**zz_c20_defaults, extra: 1}.keys.len",
-		"[*zz_c20_list, 5].len + %{**zz_c20_defaults, 'k: 1}.len", "zz_c20_it.new(0).A", "zz_c20_it.new(1).A"}
+		"[*zz_c20_list, 5].len + %{**zz_c20_defaults, 'k: 1}.len", "zz_c20_it.new(0).A", "zz_c20_it.new(1).A",
+		// shared function / iterator values turned into text or compared for the first time by the handlers
+		"zz_c20_render.S.len", "\"#{zz_c20_handler} #{zz_c20_it}\".len", "[zz_c20_handler == zz_c20_render, zz_c20_render.repr.len, {f: zz_c20_render}.S.len]"}
 	for i := range readers {
 		for j := i; j < len(readers); j++ {
 			emit(tcase{Scenario: "S4", Threads: [][]string{{mains[0]}, {readers[i]}, {readers[j]}}, Bound: 1})
